@@ -97,4 +97,15 @@ def run (files : List ForkFile) (c : Cur) (passThrough : Bool) (canon : List Blk
       | none => go s' (acc ++ evs) rest
   go {} [] canon
 
+/-- the same with a user handler that fails on its call number `k` (0-based): the failing call is the last one and
+    the handler's error is what the source reports (every `ProcessBlock` of the resolver returns the handler's error
+    at once) -/
+def runFailing (files : List ForkFile) (c : Cur) (passThrough : Bool) (canon : List Blk) (failAt : Option Nat) :
+    List Event × Option RErr :=
+  match failAt with
+  | some k =>
+    if k < (run files c passThrough canon).1.length then ((run files c passThrough canon).1.take (k + 1), some .handler)
+    else run files c passThrough canon
+  | none => run files c passThrough canon
+
 end BstreamVerif.Resolver
